@@ -2,10 +2,24 @@
 use crate::{Ctx, Suite};
 
 pub mod c01;
+pub mod c03;
+pub mod c04;
+pub mod c05;
+pub mod c06;
+pub mod c07;
+pub mod c08;
+pub mod c09;
 
 pub fn run<C: Suite>(ctx: &mut Ctx) {
     match ctx.prop.clone().as_str() {
         "C01" => c01::run::<C>(ctx),
+        "C03" => c03::run::<C>(ctx),
+        "C04" => c04::run::<C>(ctx),
+        "C05" => c05::run::<C>(ctx),
+        "C06" => c06::run::<C>(ctx),
+        "C07" => c07::run::<C>(ctx),
+        "C08" => c08::run::<C>(ctx),
+        "C09" => c09::run::<C>(ctx),
         p => panic!("unknown property {p}"),
     }
 }
